@@ -131,6 +131,21 @@ PinLend(i) ==
   /\ lends' = lends + 1 /\ nextVal' = nextVal + 1
   /\ out' = [OE("ret:lent", Ev("pinlend", i, 0, inst[i].thr, 0, "")) EXCEPT !.new = nextVal]
   /\ UNCHANGED <<cnt, reasons, verified, gone>>
+\* the same provided method, but the answer running on the helper lends a CLONE OF THE HELPER through it
+\* (`u.make_ref(u.clone())`): an instance owned by the helper, two levels below i
+PinLendClone(i) ==
+  /\ En("pinlendclone") /\ Step /\ UserVisible(i)
+  /\ LET has == \E h \in Ids : Live(h) /\ inst[h].helper /\ inst[h].owner = i
+         need == IF has THEN 1 ELSE 2 IN
+       /\ Cardinality(Free) >= need
+       /\ LET h  == IF has THEN CHOOSE x \in Ids : Live(x) /\ inst[x].helper /\ inst[x].owner = i ELSE Lowest(Free)
+              f0 == IF has THEN inst
+                    ELSE [inst EXCEPT ![h] = [Dead EXCEPT !.alive = TRUE, !.vid = inst[i].vid, !.thr = inst[i].thr, !.owned = TRUE, !.owner = i, !.helper = TRUE]]
+              c  == Lowest(Free \ {h})
+          IN inst' = [f0 EXCEPT ![c] = [Dead EXCEPT !.alive = TRUE, !.vid = inst[i].vid, !.thr = inst[i].thr, !.owned = TRUE, !.owner = h]]
+  /\ lends' = lends + 1
+  /\ out' = OE("ret:lent", Ev("pinlendclone", i, 0, inst[i].thr, 0, ""))
+  /\ UNCHANGED <<cnt, reasons, verified, nextVal, gone>>
 \* i.make_ref(j): clone j moves into i's value chain
 Lend(i, j) ==
   /\ En("lend") /\ Step /\ UserVisible(i) /\ UserVisible(j) /\ i # j /\ ~inst[j].orig /\ inst[i].thr = inst[j].thr
@@ -261,7 +276,7 @@ PanicOn(t, e, origin, i) ==
   /\ UNCHANGED nextVal
 
 Next ==
-  \/ \E i \in Ids : PinLend(i)
+  \/ \E i \in Ids : PinLend(i) \/ PinLendClone(i)
   \/ \E i \in Ids : Clone(i) \/ Delegate(i) \/ CallHit(i) \/ CallErr(i) \/ Drop(i) \/ Verify(i) \/ Report(i) \/ NoVerify(i) \/ MakeMut(i)
   \/ \E i \in Ids, k \in 1..2 : MakeRef(i, k)
   \/ \E i, j \in Ids : Lend(i, j)
